@@ -32,8 +32,15 @@ import (
 // target's name and directory are substituted where they occurred), and then
 // runs, in lock-step with the model as always, the histories
 //
-//	staged in the root:       Mkdir(<predicted>) ; AtomicCreate(d, f, data) ; List ; read back
-//	staged in the directory:  Create(d, <predicted>) + contents ; AtomicCreate(d, f, data) ; List ; read both back
+//	a directory in the root has the predicted name
+//	a file with contents in the target directory / in another directory has it
+//	the next TWO predicted names are taken (directories in the root, files in
+//	  the target directory and inside the directory of that name)
+//	a file with that name is open for append and appended to afterwards
+//
+// each followed by two AtomicCreate calls of another name, List, and a
+// read-back of everything: the caller's files keep their contents, the new
+// file has exactly its data, List shows exactly the names.
 //
 // If no staging name shows up, or the names are not predictable (random), the
 // probe records that and decides nothing. The child is a fresh process, so the
@@ -121,15 +128,19 @@ func extrapolate(a, b, c string) (string, bool) {
 	return digitRunRe.ReplaceAllStringFunc(c, func(string) string { i++; return next[i-1] }), true
 }
 
+type stagingVariant struct {
+	Variant   string   `json:"variant"`
+	Observed  []string `json:"staging_names_observed"`
+	Where     string   `json:"staged_in"` // root | dir
+	Predicted []string `json:"predicted_next"`
+	History   []string `json:"history,omitempty"`
+	Divs      []c12div `json:"divs,omitempty"`
+}
+
 type stagingReport struct {
-	Observed    []string `json:"staging_names_observed"`
-	Where       string   `json:"staged_in"` // root | dir | "" (none seen)
-	Predicted   string   `json:"predicted_next"`
-	Predictable bool     `json:"predictable"`
-	Note        string   `json:"note,omitempty"`
-	History     []string `json:"history,omitempty"`
-	Divs        []c12div `json:"divs,omitempty"`
-	Compared    int64    `json:"compared"`
+	Note     string           `json:"note,omitempty"`
+	Variants []stagingVariant `json:"variants"`
+	Compared int64            `json:"compared"`
 }
 
 // c12StagingChild: vcheck child c12-staging <outfile> <rootdir>
@@ -154,78 +165,110 @@ func c12StagingChild(args []string) int {
 		w.Flush()
 	}
 	const dirName, target = "qdirq", "qtargetq"
-	// observation
-	obsRoot := filepath.Join(args[1], "observe")
-	os.MkdirAll(obsRoot, 0o755)
-	dfs := filesys.NewDirFs(obsRoot)
-	dfs.Mkdir(dirName)
-	iw, err := newInoWatch(map[string]string{"root": obsRoot, "dir": filepath.Join(obsRoot, dirName)})
-	if err != nil {
-		rep.Note = "inotify unavailable: " + err.Error()
-		write()
-		return 0
-	}
-	var names, wheres []string
-	for i := 0; i < 3; i++ {
-		dfs.AtomicCreate(dirName, target, []byte{byte(i)})
-		for _, ev := range iw.drain() {
-			if ev.mask&syscall.IN_CREATE != 0 && !(ev.where == "dir" && ev.name == target) {
-				names = append(names, ev.name)
-				wheres = append(wheres, ev.where)
+	seq := 0
+	// observe: three AtomicCreate calls on a fresh DirFs under inotify; returns
+	// the staging names, where they appeared, and the next two predicted names
+	// for a call AtomicCreate(dir2, target2, …)
+	const dir2, target2 = "d", "f"
+	observe := func() (names []string, where string, pred []string, note string) {
+		seq++
+		obsRoot := filepath.Join(args[1], fmt.Sprintf("observe%d", seq))
+		os.MkdirAll(obsRoot, 0o755)
+		defer os.RemoveAll(obsRoot)
+		dfs := filesys.NewDirFs(obsRoot)
+		defer dfs.CloseFs()
+		dfs.Mkdir(dirName)
+		iw, err := newInoWatch(map[string]string{"root": obsRoot, "dir": filepath.Join(obsRoot, dirName)})
+		if err != nil {
+			return nil, "", nil, "inotify unavailable: " + err.Error()
+		}
+		defer iw.close()
+		var wheres []string
+		for i := 0; i < 3; i++ {
+			dfs.AtomicCreate(dirName, target, []byte{byte(i)})
+			for _, ev := range iw.drain() {
+				if ev.mask&syscall.IN_CREATE != 0 && !(ev.where == "dir" && ev.name == target) {
+					names = append(names, ev.name)
+					wheres = append(wheres, ev.where)
+				}
 			}
 		}
-	}
-	iw.close()
-	dfs.CloseFs()
-	rep.Observed = names
-	if len(names) != 3 || wheres[0] != wheres[1] || wheres[1] != wheres[2] {
-		rep.Note = "no single staging file per call was observed"
-		write()
-		return 0
-	}
-	rep.Where = wheres[0]
-	pred, ok := extrapolate(names[0], names[1], names[2])
-	if !ok {
-		rep.Note = "the observed staging names are not predictable"
-		write()
-		return 0
-	}
-	// the hostile history uses another directory and target: substitute them
-	// where the observed names mention the observed ones
-	const dir2, target2 = "d", "f"
-	pred = strings.ReplaceAll(strings.ReplaceAll(pred, target, target2), dirName, dir2)
-	rep.Predicted, rep.Predictable = pred, true
-	if !simpleName(pred) || pred == target2 || pred == dir2 {
-		rep.Note = "the predicted name is not a name a caller can use"
-		write()
-		return 0
-	}
-	h := &hb{}
-	h.mk(dir2)
-	if rep.Where == "root" {
-		h.mk(pred)
-	} else {
-		h.file(dir2, pred, 33)
-	}
-	h.ls(dir2).at(dir2, target2, 10).ls(dir2).readBack(dir2, target2)
-	if rep.Where == "root" {
-		h.ls(pred)
-	} else {
-		h.readBack(dir2, pred)
-	}
-	ops := append(append([]Op(nil), h.ops...), finalOps(h.ops)...)
-	rep.History = opStrings(ops)
-	env := &c12env{root: filepath.Join(args[1], "probe")}
-	impls, cleanup := env.fresh()
-	st := newC12stats()
-	var sel []*c12impl
-	for _, im := range impls {
-		if im.name == "dirfs" {
-			sel = append(sel, im)
+		if len(names) != 3 || wheres[0] != wheres[1] || wheres[1] != wheres[2] {
+			return names, "", nil, "no single staging file per call was observed"
 		}
+		p1, ok1 := extrapolate(names[0], names[1], names[2])
+		p2, ok2 := extrapolate(names[1], names[2], p1)
+		if !ok1 || !ok2 {
+			return names, wheres[0], nil, "the observed staging names are not predictable"
+		}
+		// the hostile history uses another directory and target: substitute them
+		// where the observed names mention the observed ones
+		for _, p := range []string{p1, p2} {
+			p = strings.ReplaceAll(strings.ReplaceAll(p, target, target2), dirName, dir2)
+			if !simpleName(p) || p == target2 || p == dir2 || p == "e" {
+				return names, wheres[0], nil, "a predicted name is not a name a caller can use"
+			}
+			pred = append(pred, p)
+		}
+		return names, wheres[0], pred, ""
 	}
-	rep.Divs = execHistory(ops, sel, "S", "methods", &st)
-	cleanup()
+	variants := []struct {
+		label string
+		build func(h *hb, p []string)
+		after func(h *hb, p []string)
+	}{
+		{"directory-in-the-root-has-the-name",
+			func(h *hb, p []string) { h.mk(p[0]) },
+			func(h *hb, p []string) { h.ls(p[0]) }},
+		{"file-in-the-target-directory-has-the-name",
+			func(h *hb, p []string) { h.file(dir2, p[0], 33) },
+			func(h *hb, p []string) { h.readBack(dir2, p[0]) }},
+		{"file-in-another-directory-has-the-name",
+			func(h *hb, p []string) { h.mk("e").file("e", p[0], 33) },
+			func(h *hb, p []string) { h.ls("e").readBack("e", p[0]) }},
+		{"the-next-two-names-are-taken-by-a-directory-and-files",
+			func(h *hb, p []string) {
+				h.mk(p[0]).mk(p[1]).file(dir2, p[0], 33).file(dir2, p[1], 34).file(p[0], p[1], 35)
+			},
+			func(h *hb, p []string) {
+				h.ls(p[0], p[1]).readBack(dir2, p[0]).readBack(dir2, p[1]).readBack(p[0], p[1])
+			}},
+		{"open-append-descriptor-on-a-file-with-the-name",
+			func(h *hb, p []string) {
+				c := h.cr(dir2, p[0])
+				h.ap(c, 5)
+			},
+			func(h *hb, p []string) { h.ap(1, 6).cl(1).readBack(dir2, p[0]) }},
+	}
+	st := newC12stats()
+	for _, v := range variants {
+		names, where, pred, note := observe()
+		if note != "" {
+			rep.Note = note
+			rep.Variants = append(rep.Variants, stagingVariant{Variant: v.label, Observed: names, Where: where})
+			break
+		}
+		h := &hb{}
+		h.mk(dir2)
+		v.build(h, pred)
+		h.ls(dir2).at(dir2, target2, 10).ls(dir2).readBack(dir2, target2).at(dir2, target2, 20).ls(dir2).readBack(dir2, target2)
+		v.after(h, pred)
+		if !validHistory(h.ops) {
+			panic("staging probe built an invalid history: " + strings.Join(opStrings(h.ops), ";"))
+		}
+		ops := append(append([]Op(nil), h.ops...), finalOps(h.ops)...)
+		env := &c12env{root: filepath.Join(args[1], "probe")}
+		impls, cleanup := env.fresh()
+		var sel []*c12impl
+		for _, im := range impls {
+			if im.name == "dirfs" {
+				sel = append(sel, im)
+			}
+		}
+		divs := execHistory(ops, sel, "S", "methods", &st)
+		cleanup()
+		rep.Variants = append(rep.Variants, stagingVariant{Variant: v.label, Observed: names, Where: where, Predicted: pred, History: opStrings(ops), Divs: divs})
+	}
 	rep.Compared = st.compared
 	write()
 	return 0
@@ -254,16 +297,22 @@ func runStagingProbe(r *core.Run) (compared int64) {
 		r.Inconclusive("staging-probe child failed: " + tail(firstLines(res.Stderr, 3), 200))
 		return 0
 	}
-	r.Set("staging_probe", map[string]interface{}{"observed": rep.Observed, "staged_in": rep.Where, "predicted_next": rep.Predicted,
-		"predictable": rep.Predictable, "note": rep.Note, "history": rep.History, "divergences": len(rep.Divs)})
-	for _, d := range rep.Divs {
-		what := "a directory in the root"
-		if rep.Where == "dir" {
-			what = "a file of the caller in the same directory"
+	var summary []map[string]interface{}
+	for _, v := range rep.Variants {
+		summary = append(summary, map[string]interface{}{"variant": v.Variant, "observed": v.Observed, "staged_in": v.Where, "predicted_next": v.Predicted,
+			"calls": len(v.History), "divergences": len(v.Divs)})
+		for _, d := range v.Divs {
+			sig := d.Base + "-while-the-predicted-staging-name-is-taken"
+			if d.Base != "dirfs-atomic-panics" {
+				sig = d.Base + "-after-atomiccreate-while-the-predicted-staging-name-is-taken"
+			}
+			r.Violate(sig, fmt.Sprintf("%s diverges from the model at %s (%s) in the variant %q: the caller holds exactly the name(s) the implementation is about to stage under (observed staging names %q in the %s, predicted next %q): expected %s, observed %s; history: %s",
+				d.Impl, d.Op, d.What, v.Variant, v.Observed, v.Where, v.Predicted, d.Expected, d.Observed, strings.Join(d.History, " ; ")), d)
 		}
-		sig := d.Base + "-while-the-predicted-staging-name-is-taken"
-		r.Violate(sig, fmt.Sprintf("%s diverges from the model at %s (%s) when %s has exactly the name the implementation stages under (observed staging names %q in the %s, predicted next %q): expected %s, observed %s; history: %s",
-			d.Impl, d.Op, d.What, what, rep.Observed, rep.Where, rep.Predicted, d.Expected, d.Observed, strings.Join(d.History, " ; ")), d)
+	}
+	r.Set("staging_probe", map[string]interface{}{"note": rep.Note, "variants": summary})
+	if rep.Note != "" {
+		r.Count("staging_probe_decided_nothing", 1)
 	}
 	return rep.Compared
 }
